@@ -54,6 +54,9 @@ class Log(object):
         self.calls = []
 
 
+APPS = {}
+
+
 def build(cfg, log, split=0):
     from clastic import Application, Route, Response
 
@@ -67,10 +70,13 @@ def build(cfg, log, split=0):
         prefix, pat = options[split % len(options)]
         route = Route(pat, ep, methods=methods, slash_mode=cfg['routeMode'])
         inner = Application([route], slash_mode=cfg['innerMode'])
-        return Application([SubApplication(prefix, inner, inherit_slashes=cfg['inherit'])], slash_mode=cfg['appMode'])
+        outer = Application([SubApplication(prefix, inner, inherit_slashes=cfg['inherit'])], slash_mode=cfg['appMode'])
+        outer._verif_log = log
+        return outer
     route = Route(KIND[cfg['kind']], ep, methods=methods, slash_mode=cfg['routeMode'])
     app = Application(slash_mode=cfg['appMode'])
     app.add(route, inherit_slashes=cfg['inherit'])
+    app._verif_log = log
     return app
 
 
@@ -134,8 +140,16 @@ def exchange(cfg, req, texts):
     """returns (o1, o2 or None) projected observations + diagnostics"""
     log = Log()
     import zlib
-    crc = zlib.crc32(json.dumps([cfg, req], sort_keys=True).encode('utf8'))
-    app = build(cfg, log, split=crc)
+    crc = zlib.crc32(json.dumps([cfg, req['path'], req['method']], sort_keys=True).encode('utf8'))     # (not the query)
+    # one long-lived application per (configuration, split): every exchange is served by an application that has already
+    # answered other requests - other paths, other queries, earlier redirects to the same canonical path
+    key = (json.dumps(cfg, sort_keys=True), crc % 12)
+    if key not in APPS:
+        if len(APPS) > 4000:
+            APPS.clear()
+        APPS[key] = (build(cfg, Log(), split=crc % 12), )
+    app = APPS[key][0]
+    log = app._verif_log
     mount = '/mnt' if (crc >> 9) % 3 == 0 else ''
     rev = dict((v, k) for k, v in texts.items())
     p = path_text(req['path'], texts)
@@ -205,6 +219,14 @@ def check(run):
         o1, o2, ptxt = exchange(rec['cfg'], rec['req'], texts)
         run.evaluations += 1
         sig = compare(rec, o1, o2, texts)
+        if not sig and rec['ans1']['k'] == 'redirect':
+            # the same path again, on the same application, with ANOTHER query string: the answer is the same, with this query
+            other = 'q2' if rec['req']['query'] != 'q2' else 'q3'
+            o1b, o2b, _p = exchange(rec['cfg'], dict(rec['req'], query=other), texts)
+            sig = compare(rec, o1b, o2b, texts)
+            if sig:
+                sig += ':second-request-other-query'
+                o1, o2 = o1b, o2b
         if rec['ans1']['k'] != '404':
             run.nontrivial.add(json.dumps([rec['cfg'], rec['req'], sp], sort_keys=True))
         if sig:
